@@ -26,3 +26,24 @@ Proof.
   apply (reader_msg m). apply (proj1 (wf_msg_iff m)) in W. exact (proj1 W).
 Qed.
 Print Assumptions writer_loader_reader.
+
+(* ---- header edits in front of the chain: an edited (e.g. sender-stamped) message, re-serialised, is accepted by
+   the loader and read by the receiver with exactly the body and signature it had before the edits ---- *)
+From DV Require Import Proofs.CodecWf Proofs.EditProofs.
+
+Theorem edited_message_received m es rest avail :
+  let m' := fold_left apply_edit es m in
+  wf_msg m' = true -> spec_nfds (s_fields m') <= avail ->
+  exists msg,
+    load_message (s_le m) (m_flen m') (m_hlen m') (m_blen m') avail (spec_encode_message m' ++ rest) = inl msg /\
+    m_header msg ++ m_body msg = spec_encode_message m' /\
+    m_body msg = encs (s_le m) (s_body m) 0 /\
+    read_all (s_le m) (s_sig m) (m_body msg) = inl (s_body m).
+Proof.
+  intros m' W Hf.
+  destruct (edits_frame es m) as (Ele & _ & _ & _ & Esig & Ebody). fold m' in Ele, Esig, Ebody.
+  destruct (writer_loader_reader m' rest avail W Hf) as (_ & _ & msg & Hl & He & Hb & Hr). cbv zeta in *.
+  exists msg. unfold m_bodyb in Hb. rewrite Ele, Ebody in Hb. rewrite Ele, Esig, Ebody in Hr. rewrite Ele in Hl.
+  repeat split; assumption.
+Qed.
+Print Assumptions edited_message_received.
